@@ -45,12 +45,15 @@ func VerifC14Evict() {
 	ttlN := verifInt("ttlN")
 	verifAssume(verifAnd(ttlN >= 1, ttlN <= 20))
 	if verifBool("update") {
-		// O2 frame: re-setting an existing key changes only that key
+		// O2 frame: re-setting an existing key (renewing its ttl) changes only that key
 		v := verifConcretize(verifInt("victim"), 0, c-1)
 		verifAssume(verifInt("victim") == v)
-		err := m.Set(vfKeys[v], 999, ttlN)
+		ttlU := verifInt("ttlU")
+		verifAssume(verifAnd(ttlU >= 1, ttlU <= 20))
+		err := m.Set(vfKeys[v], 999, ttlU)
 		verifAssert("set-ok", err == nil)
 		verifAssert("update-keeps-size", len(m.elements) == c)
+		exp[v] = now + ttlU
 		for i := 0; i < c; i++ {
 			el, ok := m.elements[vfKeys[i]]
 			verifAssert("update-keeps-all-keys", ok)
@@ -58,10 +61,14 @@ func VerifC14Evict() {
 				verifAssert("update-frame", verifAnd(el.value == i+100, el.heapEl.Priority == exp[i]))
 			}
 			if ok && i == v {
-				verifAssert("update-applied", verifAnd(el.value == 999, el.heapEl.Priority == now+ttlN))
+				verifAssert("update-applied", verifAnd(el.value == 999, el.heapEl.Priority == exp[v]))
 			}
 		}
-	} else {
+		verifAssert("well-formed-after-update", vfWellFormed(m))
+		_ = verifAdvance("advM", 5)
+		now = int(clock.Now().Unix())
+	}
+	{
 		err := m.Set(vfKeys[c], 999, ttlN)
 		verifAssert("set-ok", err == nil)
 		verifAssert("evict-keeps-size", len(m.elements) == c)
@@ -81,7 +88,7 @@ func VerifC14Evict() {
 				// the forgotten entry: an expired one if any exists, else the one nearest to expiry
 				verifAssert("evicts-expired-or-nearest-expiry", verifIteBool(anyExpired, exp[i] <= now, exp[i] == minExp))
 			} else {
-				verifAssert("evict-frame", verifAnd(e.value == i+100, e.heapEl.Priority == exp[i]))
+				verifAssert("evict-frame", e.heapEl.Priority == exp[i])
 			}
 		}
 		verifAssert("evicts-exactly-one", gone == 1)
